@@ -3,6 +3,8 @@
      P <agg> <param> # <values> # <result> # <result on a shuffled copy>
      G <k> (<agg> <mode> <param>)*k # <cells batch 1> # ... # <results batch 1> # ...
      S <shape> <N> <k> (<agg> <param>)*k # <cells of all rows> # <results batch 1> # ...
+     M <N> <k> (<agg> <param> <arg>)*k # <cells of all rows> # <results batch 1> # ...
+       a select list whose calls have DIFFERENT arguments; <arg> = <x|dx>:<id|add|sub|mul>:<num/den>:<i|d>:<cl|lc>
    Verdicts: "chk <clause>" = the implementation's result is not the documented definition on this input;
              "diff ..."     = the implementation's result is not the model's. *)
 open Model
@@ -87,6 +89,7 @@ let judge (name : string) (f : agg) (known : string option) (o : obs option) (sp
   | _ -> if m_ok then None else Some ("diff " ^ name ^ "_model")
 
 let is_null = function VNull -> true | _ -> false
+let as_number = function VInt z -> VFlt (mkq z (z_of_int 1)) | v -> v
 
 let handle_direct (name : string) (param : string) (vals : string list) (r1 : string list) (r2 : string list option) : string =
   let (f, _) = agg_of name param in
@@ -207,6 +210,73 @@ let handle (toks : string list) : string =
                      end) scells
                end) fields;
            (match !verdict with Some v -> v | None -> "ok nt")
+       | _ -> "bad line")
+  | "M" :: n :: k :: rest ->
+      (match split_hash rest with
+       | hdr :: cells :: rs ->
+           let k = int_of_string k and n = int_of_string n in
+           let shape_of (t : string) : shape =
+             (match String.split_on_char ':' t with
+              | [col; op; lit; form; _order] ->
+                  let nested = (match col with "x" -> false | "dx" -> true | _ -> failwith "bad column") in
+                  if form <> "i" && form <> "d" then failwith "bad literal form" else
+                  (match op with
+                   | "id" -> if nested then ShPath else ShId
+                   | "add" -> ShAff (OAdd, q_of_frac lit)
+                   | "sub" -> ShAff (OSub, q_of_frac lit)
+                   | "mul" -> ShAff (OMul, q_of_frac lit)
+                   | _ -> failwith "bad operator")
+              | _ -> failwith ("bad argument token " ^ t)) in
+           let rec flds c toks = if c = 0 then [] else
+               (match toks with
+                | name :: param :: arg :: r ->
+                    let (f, star) = agg_of name param in
+                    let sh = shape_of arg in
+                    (name, f, (match star with Some s -> s | None -> sql_mode sh), sh) :: flds (c - 1) r
+                | _ -> failwith "bad field spec") in
+           let fields = flds k hdr in
+           let cells = List.map cell_of_tok cells in
+           let batches = chunks n cells in
+           if List.length rs <> List.length batches then "chk batch_count" else
+           (* the model: one GroupAggregator, one state per call, every call fed with ITS argument *)
+           let sfields = List.map (fun (_, f, m, sh) -> ((f, m), sh)) fields in
+           let mds = sel_run sfields (sel_init sfields) batches in
+           let verdict = ref None in
+           let soft = ref None in      (* a recorded deviation: never hides a different violation of the same case *)
+           List.iteri (fun b bc ->
+               let toks = List.nth rs b in
+               let obs_of j = if toks = ["E"] then None else
+                   (let rec nth_obs toks i = let (o, r) = take_obs toks in if i = 0 then o else nth_obs r (i - 1) in
+                    Some (nth_obs toks j)) in
+               List.iteri (fun j (name, f, m, sh) ->
+                   if !verdict = None then begin
+                     (* the Go type (int / float64) of the value of an arithmetic argument is not modelled *)
+                     let o = (match sh, obs_of j with
+                         | ShAff _, Some (OVal v) -> Some (OVal (as_number v))
+                         | ShAff _, Some (OList l) -> Some (OList (List.map as_number l))
+                         | _, o -> o) in
+                     let known = (match f, m with
+                         | AStdDev, _ -> Some "stddev_is_sample"
+                         | _, MExpr when keeps_null f -> Some "expr_null_not_skipped"
+                         | _ -> None) in
+                     let sp = spec_batch f m (List.map (eval_arg sh) bc) in
+                     match judge name f known o (Some sp) (List.nth (List.nth mds b) j) with
+                     | Some v when v <> "chk stddev_is_sample" ->
+                         (* diagnosis: is it the definition applied to the argument of ANOTHER call of the list? *)
+                         let other = ref None in
+                         List.iteri (fun i (_, _, _, sh') ->
+                             if !other = None && i <> j && sh' <> sh && m <> MStar then begin
+                               let f' = (match f with AStdDev -> AStdDevS | _ -> f) in
+                               let sp' = spec_batch f' m (List.map (eval_arg sh') bc) in
+                               if matches_opt (exact_agg f) o sp' then other := Some i
+                             end) fields;
+                         (match !other with
+                          | Some i -> verdict := Some (Printf.sprintf "chk expr_arg_of_other_call field=%d batch=%d other=%d (%s)" j b i v)
+                          | None -> verdict := Some (Printf.sprintf "%s field=%d batch=%d" v j b))
+                     | Some v -> if !soft = None then soft := Some (Printf.sprintf "%s field=%d batch=%d" v j b)
+                     | None -> ()
+                   end) fields) batches;
+           (match !verdict, !soft with Some v, _ -> v | None, Some v -> v | None, None -> "ok nt")
        | _ -> "bad line")
   | _ -> "bad line"
 
